@@ -49,6 +49,13 @@ Theorem C01_calc2_no_lost_state : forall e st, wf2 e st -> pending e st <> [].
 Proof. exact no_lost2. Qed.
 Print Assumptions C01_calc2_no_lost_state.
 
+(* a leaf event applies iff something with its id is pending: a running leaf, a queued schedule() item, a
+   held completion *)
+Theorem C01_calc2_leafev_hit : forall e st id o cx, wf2 e st ->
+  (snd (leafev e st id o cx) = true <-> In id (pending_ids e st)).
+Proof. exact leafev_hit2. Qed.
+Print Assumptions C01_calc2_leafev_hit.
+
 (* ---- whole runs ([run] = the script, [exec] = run followed by the owner's destruction of a completed
         root operation) ---- *)
 
